@@ -38,9 +38,9 @@ func (x *Exec) checkAsserts(fr *Frame, b *ssa.BasicBlock, st *State, ins ssa.Ins
 		}
 		env := x.envAt(fr, b, st)
 		saved := x.lookupAtEnd
-		x.lookupAtEnd = true
+		x.lookupAtEnd, x.lookupLimited, x.lookupLimit = true, true, instrIndex(ins)
 		v := x.evalVal(env, bd.E)
-		x.lookupAtEnd = saved
+		x.lookupAtEnd, x.lookupLimited = saved, false
 		if v.T.S != "" {
 			v.T = x.declareEq("ghost_"+bd.Name, v.T)
 		}
@@ -71,9 +71,9 @@ func (x *Exec) checkAsserts(fr *Frame, b *ssa.BasicBlock, st *State, ins ssa.Ins
 		}
 		env := x.envAt(fr, b, st)
 		saved := x.lookupAtEnd
-		x.lookupAtEnd = true
+		x.lookupAtEnd, x.lookupLimited, x.lookupLimit = true, true, instrIndex(ins)
 		t := x.evalBool(env, as.E)
-		x.lookupAtEnd = saved
+		x.lookupAtEnd, x.lookupLimited = saved, false
 		txt := strings.Join(strings.Fields(line), "")
 		if len(txt) > 32 {
 			txt = txt[:32]
@@ -137,9 +137,17 @@ func (x *Exec) checkBindsAfter(fr *Frame, b *ssa.BasicBlock, st *State, idx int)
 		x.assertSeen[key] = true
 		env := x.envAt(fr, b, st)
 		saved := x.lookupAtEnd
-		x.lookupAtEnd = true
+		// names as they stand after this instruction and the debug references that follow it
+		lim := idx + 1
+		for lim < len(b.Instrs) {
+			if _, isDbg := b.Instrs[lim].(*ssa.DebugRef); !isDbg {
+				break
+			}
+			lim++
+		}
+		x.lookupAtEnd, x.lookupLimited, x.lookupLimit = true, true, lim
 		v := x.evalVal(env, bd.E)
-		x.lookupAtEnd = saved
+		x.lookupAtEnd, x.lookupLimited = saved, false
 		if v.T.S != "" {
 			v.T = x.declareEq("ghost_"+bd.Name, v.T)
 		}
